@@ -22,9 +22,12 @@ import (
 	"github.com/jackc/pgx/v4/pgxpool"
 	"github.com/rs/zerolog"
 
+	"github.com/shutter-network/rolling-shutter/rolling-shutter/keyper"
 	"github.com/shutter-network/rolling-shutter/rolling-shutter/keyper/epochkghandler"
 	"github.com/shutter-network/rolling-shutter/rolling-shutter/keyper/kprapi"
 	"github.com/shutter-network/rolling-shutter/rolling-shutter/keyper/kproapi"
+	"github.com/shutter-network/rolling-shutter/rolling-shutter/keyperimpl/gnosis"
+	"github.com/shutter-network/rolling-shutter/rolling-shutter/keyperimpl/shutterservice"
 	"github.com/shutter-network/rolling-shutter/rolling-shutter/medley/broker"
 )
 
@@ -258,6 +261,81 @@ func CleanupScratch() {
 	if uiDirPath != "" {
 		os.RemoveAll(uiDirPath)
 	}
+}
+
+// NewFlavourGate obtains the server the deployed process of a keyper flavour would serve: the
+// flavour's real Config (NewConfig, SetDefaultValues, HTTPEnabled = true, HTTPReadOnly as the
+// operator wrote it: "unset" | "true" | "false"), the flavour's real NewKeyper (which builds the
+// kprconfig.Config of the keyper core) and the core's own getServices (hook VerifHTTPServer),
+// then setupRouter as always.
+func NewFlavourGate(flavour, cfgRO string) (*Gate, error) {
+	buildMu.Lock()
+	defer buildMu.Unlock()
+	os.Unsetenv("SWAGGER_UI")
+	pg := &pgObs{}
+	pool, err := pg.pool()
+	if err != nil {
+		return nil, err
+	}
+	var core *keyper.KeyperCore
+	var perr any
+	func() {
+		defer func() { perr = recover() }()
+		switch flavour {
+		case "gnosis":
+			cfg := gnosis.NewConfig()
+			if err = cfg.SetDefaultValues(); err != nil {
+				return
+			}
+			cfg.HTTPEnabled = true
+			switch cfgRO {
+			case "true":
+				cfg.HTTPReadOnly = true
+			case "false":
+				cfg.HTTPReadOnly = false
+			}
+			kpr := gnosis.VerifGnosisSlotNewKeyper(cfg, pool, nil, make(chan *broker.Event[*epochkghandler.DecryptionTrigger]))
+			core, err = gnosis.NewKeyper(kpr, &gnosis.MessagingMiddleware{})
+		case "shutterservice":
+			cfg := shutterservice.NewConfig()
+			if err = cfg.SetDefaultValues(); err != nil {
+				return
+			}
+			cfg.HTTPEnabled = true
+			switch cfgRO {
+			case "true":
+				cfg.HTTPReadOnly = true
+			case "false":
+				cfg.HTTPReadOnly = false
+			}
+			kpr := shutterservice.VerifNewKeyper(cfg, pool, make(chan *broker.Event[*epochkghandler.DecryptionTrigger]))
+			core, err = shutterservice.NewKeyper(kpr, &shutterservice.MessagingMiddleware{})
+		default:
+			err = fmt.Errorf("unknown keyper flavour %q", flavour)
+		}
+	}()
+	if perr != nil {
+		err = fmt.Errorf("constructing the %s keyper panicked: %v", flavour, perr)
+	}
+	if err != nil {
+		pool.Close()
+		return nil, err
+	}
+	var srv *kprapi.Server
+	g := &Gate{pg: pg, pool: pool}
+	func() {
+		defer func() { perr = recover() }()
+		srv = core.VerifHTTPServer()
+		if srv != nil {
+			g.trig, g.shut = kprapi.VerifTriggerChan(srv), kprapi.VerifShutdownChan(srv)
+			g.h = kprapi.VerifRouter(srv)
+		}
+	}()
+	if perr != nil || srv == nil {
+		pool.Close()
+		return nil, fmt.Errorf("%s keyper with HTTPEnabled: no HTTP server in the core's service list (%v)", flavour, perr)
+	}
+	return g, nil
 }
 
 func gateOnlyRouter(srv *kprapi.Server, write bool) http.Handler {
